@@ -12,6 +12,11 @@ def attemptDeadline (now readTO : Nat) (ctxDeadline : Option Nat) : Nat :=
   | some d => min (now + readTO) d
   | none => now + readTO
 
+/-- `d.Before(deadline)` where `deadline = none` is the zero `time.Time` (no instant is before it) -/
+def before (d : Nat) : Option Nat → Bool
+  | some x => decide (d < x)
+  | none => false
+
 /-- the variant in which a context deadline always replaces the read timeout (the shape of a
 seeded change): with a far deadline the loop sleeps until then -/
 def attemptDeadlineCtxFirst (now readTO : Nat) (ctxDeadline : Option Nat) : Nat :=
